@@ -40,6 +40,7 @@ type icScenario struct {
 	Files   []string            `json:"files"`
 	Root    string              `json:"root"`
 	Imports map[string][]string `json:"imports"`
+	Aliases map[string][]string `json:"aliases"`
 	Fail    map[string]string   `json:"fail"`
 	MaxD    int                 `json:"maxd"`
 	Sched   []icStep            `json:"sched"`
@@ -200,7 +201,7 @@ func (r *icRun) render() {
 		if kind == "read" || kind == "importsyntax" {
 			imps = nil
 		}
-		for _, t := range imps {
+		for ii, t := range imps {
 			tp := r.paths[t]
 			noext := strings.TrimSuffix(tp, ".sysl")
 			var sp string
@@ -221,6 +222,8 @@ func (r *icRun) render() {
 			b.WriteString("import " + sp)
 			if r.sc.Fail[t] == "foreign" {
 				b.WriteString(" as Foreign_" + t)
+			} else if al := r.sc.Aliases[f]; ii < len(al) && al[ii] != "" {
+				b.WriteString(" as " + al[ii])
 			}
 			b.WriteString("\n")
 			r.nimp[f]++
@@ -243,6 +246,16 @@ func (r *icRun) render() {
 		b.WriteString(body)
 		r.content[f] = b.String()
 	}
+}
+
+func (r *icRun) aliasesOrEmpty() map[string][]string {
+	out := map[string][]string{}
+	for f, imps := range r.sc.Imports {
+		al := make([]string, len(imps))
+		copy(al, r.sc.Aliases[f])
+		out[f] = al
+	}
+	return out
 }
 
 func relTo(dir, target string) string {
@@ -302,7 +315,7 @@ func runOneImportClosure(sc icScenario) []tr.Ev {
 		r.free = true
 	}
 	begin := tr.Ev{"e": "begin", "files": sc.Files, "root": sc.Root, "imports": sc.Imports,
-		"fail": sc.Fail, "maxd": sc.MaxD, "mode": sc.Mode, "paths": r.paths, "seed": sc.Seed}
+		"aliases": r.aliasesOrEmpty(), "fail": sc.Fail, "maxd": sc.MaxD, "mode": sc.Mode, "paths": r.paths, "seed": sc.Seed}
 	r.emit(begin)
 
 	parse.VerifEnterHook = r.enterHook
